@@ -254,7 +254,9 @@ func C20(c *core.Ctx) {
 	// records: generated records against their copies and single-place perturbations, inside lists of
 	// 1-3 entries; "deeply equal" is reflect.DeepEqual (the Go-side oracle), the model sees the classes
 	t0 := time.Unix(1700000000, 5)
-	mk := func(r interface{}) protocol.EntryExt { return protocol.EntryExt{Timestamp: protocol.EventTime{Time: t0}, Record: r} }
+	mk := func(r interface{}) protocol.EntryExt {
+		return protocol.EntryExt{Timestamp: protocol.EventTime{Time: t0}, Record: r}
+	}
 	for i := 0; i < c.N(1500, 60000); i++ {
 		var r1 interface{}
 		for {
